@@ -52,7 +52,7 @@ CHECKS.update({
                  "parameter node and for tensor parameters (shape, requires_grad, dtype); the einsum optimisation rule equals ReduceSum o OuterProduct "
                  "for every rank <= 4 and dim pair; fold-pointwise kernels (shared with C14); 2-safety of fold_settings for EVERY concrete layer class (classes read "
                  "from the tree: equal fold settings imply equal config, parameter names / shapes, number of variables) and _fold_layers_group (config of the group, "
-                 "scope_idx / parameters / wrapped layers in group order, folds summed); build_folded_graph on templates and by the loop rule (list of symbolic length, symbolic fold ids, groups of 1-3 modules of arity 0-3; "
+                 "scope_idx / parameters / wrapped layers in group order, folds summed); build_unfold_index_info and build_folded_graph on templates and by the loop rule (list of symbolic length, symbolic fold ids, groups of 1-3 modules of arity 0-3; "
                  "suffix for 1-3 outputs), address-book entries on templates; the pattern "
                  "matchers _match_parameter_nodes_pattern / _match_layer_pattern return only exclusive chains (symbolic in/out-degrees, free class membership, "
                  "pattern length <= 4, config and parameter sub-patterns); apply_tucker / apply_candecomp / apply_sum_collapse and the fused kernels in the "
@@ -136,7 +136,7 @@ CHECKS.update({
                  "build the documented graph; the other algorithms (numpy random / image grids / Chow-Liu) and dump / load are covered by the bounded stand-in only (every algorithm over small argument spaces, independent validator, round trip, three abstractions "
                  "and explicit factories)"),
     "C15": ("other", "contract obligations on the STRUCTURAL clauses: TorchSumLayer.sample returns, per fold / output unit / sample, the sample of the "
-            "component drawn from Categorical(weight) over the same axis h*Ki+i the forward pass weights (and refuses unnormalised weights), Hadamard / "
+            "component drawn from Categorical(weight) over the same axis h*Ki+i the forward pass weights (and refuses unnormalised weights) - also on a second call after the weights changed (the draw uses the current weights) -, Hadamard / "
             "Kronecker (arity 2, 3) samples add the inputs' assignments in the layers' unit order, _pad_samples fills the column of the layer's own variable "
             "(non-contiguous ids) and no other, no sampling method updates a possibly aliased tensor in place - for all F, K, N, D; the DISTRIBUTIONAL clause "
             "(frequencies converge) is statistical: a BOUNDED seeded stand-in (20000 samples per circuit vs exact probabilities, 6.5-sigma cell thresholds), "
@@ -168,7 +168,7 @@ CHECKS.update({
                  "constants by shape); cp / tucker circuits for tensor orders 2-4 (factor j over variable j with shape[j] states and rank units, product "
                  "over all factors in mode order - Kronecker for tucker with rank**n units -, unweighted cp sums with constant ones), hmm for 12 orderings of "
                  "1-4 variables (chain follows the ordering, the input layer of variable v gets the arguments listed for v, latent units, one output unit, "
-                 "non-permutations refused), fully_factorized; LogicalCircuit.smooth on formula templates with variable 0 in every role (every disjunction smooth, smoothing "
+                 "non-permutations refused), fully_factorized; LogicalCircuit.smooth on formula templates with variable 0 in every role and every order of a disjunction's inputs (every disjunction smooth, smoothing "
                  "nodes x OR NOT x, truth value unchanged under every assignment); the numeric identities against explicit contractions / forward algorithm, the values of tensor_train's "
                  "constant matrices and the logic-circuit templates are covered by the bounded stand-in"),
 })
